@@ -66,7 +66,7 @@ def fresh(p, entry):
     if entry == "optimize":
         np.random.seed(p["np_seed"])
         problem.resolve_constraints()
-    elif entry != "resolve" and p["np_seed"] % 2 == 1 and problem.mutation_space.multichoices:
+    elif entry not in ("resolve", "resolve_filter") and p["np_seed"] % 2 == 1 and problem.mutation_space.multichoices:
         # direct searches are also called on problems that were edited before: move to another member
         # of the mutation space, so that the current sequence differs from the recorded input
         np.random.seed(p["np_seed"] + 1)
@@ -74,10 +74,12 @@ def fresh(p, entry):
     return problem
 
 
-def usable(problem, n0, before0):
+def usable(problem, n0, before0, cids=None):
     """None if the problem is usable, else a description"""
     import dnachisel as dc
     s = problem.sequence
+    if cids is not None and [id(c) for c in problem.constraints] != cids:
+        return "the problem's list of constraints was altered"
     if len(s) != n0:
         return "sequence length changed"
     for c in problem.mutation_space.choices_list:
@@ -125,6 +127,7 @@ def impl_case(case):
         if size > 3000:
             return dict(skipped="space too large for a direct search")
     n0, before0, start = len(problem.sequence), problem.sequence_before, problem.sequence
+    cids0 = [id(c) for c in problem.constraints]
     r = solverrec.record_run(problem, entry, p["np_seed"] + 3)
     n_evals = len(r["evals"])
     res = dict(code=r["code"], exc=r["exc"], n_evals=n_evals, n_draws=len(r["log"]), final=r["final"],
@@ -134,7 +137,7 @@ def impl_case(case):
         res["bad"] = ("natural NoSolutionError", "the failed exhaustive search did not restore the sequence it started from")
         return res
     if r["code"] == 1:
-        why = usable(problem, n0, before0)
+        why = usable(problem, n0, before0, cids0)
         if why:
             res["bad"] = ("natural NoSolutionError", why)
             return res
@@ -149,6 +152,7 @@ def impl_case(case):
         ks = sorted({ks[int(i * step)] for i in range(budget)} | {1, n_evals})
     for k in ks:
         pr = fresh(p, entry)
+        pr_cids = [id(c) for c in pr.constraints]
         np.random.seed(p["np_seed"] + 3)
         inj = FaultInjector(k)
         try:
@@ -166,7 +170,7 @@ def impl_case(case):
         res["faults"] += 1
         if pr.sequence != start:
             res["moved"] += 1
-        why = usable(pr, n0, before0)
+        why = usable(pr, n0, before0, pr_cids)
         if why:
             res["bad"] = (k, why)
             return res
@@ -192,7 +196,10 @@ def oracle(case, out):
     return None
 
 
-coq_case = c02.coq_case
+def coq_case(case, out):
+    if case[2] == "resolve_filter":
+        return None           # cst_filter is not modelled: L3 oracle only
+    return c02.coq_case(case, out)
 
 
 def gen_cases(rng, tier):
@@ -203,7 +210,7 @@ def gen_cases(rng, tier):
         r = rng.random()
         if r < 0.35:
             p = problems.gen_problem(rng, with_objectives=False, allow_custom=True)
-            entry = "resolve"
+            entry = "resolve" if rng.random() < 0.7 else "resolve_filter"
         elif r < 0.6:
             p = problems.gen_problem(rng, with_objectives=True, allow_custom=True, custom_kinds=problems.SOUND_CUSTOM)
             entry = "optimize"
